@@ -422,7 +422,8 @@ def run_cli(argv, vfs, inj, device):
     sys.stdout, sys.stderr = out, err
     vfs.actor = "cli"
     vfs.active = True
-    device.tag = "cli"
+    prev_tag = device.tag
+    device.tag = device.tag or "cli"
     status = None
     exc = None
     try:
@@ -450,7 +451,7 @@ def run_cli(argv, vfs, inj, device):
         sys.argv, sys.stdout, sys.stderr = saved
         vfs.actor = "post"
         vfs.active = False
-        device.tag = None
+        device.tag = prev_tag
     return status, out.getvalue(), err.getvalue(), exc
 
 
